@@ -32,6 +32,9 @@ LAYOUTS = {
     'seven-a2': [('a2', r, p) for (r, p) in POS7],
     'six-hole': [('a2', 1, 1), ('a3', 2, 1), ('a2', 2, 2), ('a3', 2, 4), ('a2', 2, 5), ('a3', 2, 6)],
     'ring-no-centre': [('a2', 2, 1), ('a3', 2, 2), ('a2', 2, 3)],
+    # finest mesh in the centre, two other mesh kinds alternating around it
+    'seven-alt': [('a4', 1, 1), ('a3', 2, 1), ('a2', 2, 2), ('a3', 2, 3), ('a2', 2, 4), ('a3', 2, 5), ('a2', 2, 6)],
+    'five-alt': [('a4', 1, 1), ('a3', 2, 1), ('a2', 2, 2), ('a3', 2, 4), ('a2', 2, 5)],
     'nineteen-a2': [('a2', 1, 1)] + [('a2', 2, p) for p in range(1, 7)] + [('a2', 3, p) for p in range(1, 13)],
     # 19-position grid, sparse: centre, part of ring 2, three positions of ring 3 (one at a ring corner)
     'nineteen-sparse': [('a2', 1, 1), ('a3', 2, 1), ('ur', 2, 2), ('a2', 2, 4), ('a3', 3, 1), ('a2', 3, 2), ('ur', 3, 6)],
